@@ -198,7 +198,11 @@ def check_calls(case, ctx) -> Res:
         if o is None:
             return Res(ok=True, inconclusive=True, detail=f"no outcome for {src}")
         if o.kind == "timeout":
-            return fail("call does not terminate", f"`{src}` did not return within 60 s (in a batch)")
+            # the batch ran out of its 60 s: decide on the call alone, with a budget no machine load explains
+            r1 = run_garden(["run", "-c", f"println(string_repr({src}))"], cwd=ctx.scratch.root, timeout=180)
+            if r1.timed_out:
+                return fail("call does not terminate", f"`{src}` did not return within 180 s")
+            return Res(ok=True, inconclusive=True, detail=f"`{src}`: batch timeout not reproduced alone")
         if o.kind == "crash":
             return fail(o.msg, f"`{src}` crashed the interpreter: {o.msg}")
         if o.kind == "parse_error":
